@@ -575,4 +575,22 @@ theorem evalModel_eq_reduceSpec (e : Expr) : e.evalModel = reduceSpec e.raw := b
   rw [reduceSpec_eq_normalized]
   exact eq_normalized_of_den (evalModel_isReduced e) ((den_evalModel e).trans (den_raw e).symm)
 
+/-! ### indexing (`impl Index<usize> for FreeWord`) -/
+
+theorem letterAt_eq_getElem? : ∀ (a : List Int) (k : Nat), letterAt a k = a[k]?
+  | [], _ => by simp [letterAt]
+  | _ :: _, 0 => by simp [letterAt]
+  | _ :: r, k + 1 => by simp [letterAt, letterAt_eq_getElem? r k]
+
+theorem index_ok {a : List Int} {k : Nat} (h : k < a.length) : FW.index a k = .ok a[k] := by
+  simp [FW.index, List.getElem?_eq_getElem h]
+
+theorem index_panic {a : List Int} {k : Nat} (h : a.length ≤ k) : FW.index a k = .panic := by
+  simp [FW.index, List.getElem?_eq_none h]
+
+theorem index_toOption (a : List Int) (k : Nat) : (FW.index a k).toOption = letterAt a k := by
+  rw [letterAt_eq_getElem?]
+  unfold FW.index
+  cases a[k]? <;> rfl
+
 end DSymVerif.FWP
